@@ -292,7 +292,7 @@ def run_chunk(args):
 
 def _has_class(out: Outcome, key, known):
     for v in out.violations:
-        if class_key(v, known)[:2] == key[:2] and _family_of(v) == key[2]:
+        if class_key(v, known)[:2] == key[:2] and (key[2] == "*" or _family_of(v) == key[2]):
             return v
     return None
 
@@ -304,7 +304,8 @@ def _family_of(v):
 def minimise(machine, history, violation, known, max_exec=400, max_wall=120.0):
     """Delta debugging over history['ops'] keeping the violation class
     (same invariant, same known-finding status, same model family)."""
-    key = (violation["inv"], match_known(violation, known), _family_of(violation))
+    kid = match_known(violation, known)
+    key = (violation["inv"], kid, _family_of(violation) if kid is None else "*")
     t0 = time.time()
     n_exec = [0]
 
